@@ -170,6 +170,7 @@ func DirectedCorpusTier(thorough bool) []Directed {
 				n := DenseNode{ID: int64(k), Info: Info{Timestamp: t, Visible: k%2 == 0}}
 				if k == 3 {
 					n.Lat, n.Lon, n.Info.Version, n.Info.UID, n.Info.Changeset, n.Info.UserSid = 9, -9, 2, 3, 4, 1
+					n.Tags = []Tag{{K: 1, V: 0}, {K: 1, V: 1}} // a dense tag whose VALUE is string 0 (""): only a key 0 is the delimiter
 				}
 				dn.Nodes = append(dn.Nodes, n)
 			}
